@@ -81,6 +81,13 @@ def pool(R):
         P.append({"fn": "jalali", "s": s}); cal.append(len(P) - 1)
         P.append({"fn": "hijri", "s": s}); cal.append(len(P) - 1)
     pool.calendars = cal
+    # strings that carry a zone, in spellings one of which is a part of another (GMT / GMT+0530, +01:00 / UTC+01:00, CST / GMT+0800 (CST)): what the
+    # zone look-up did for one must not be remembered for the next
+    zg = []
+    for s in ["2015-03-14 10:30 GMT", "2015-03-14 10:30 GMT+0530", "2015-03-14 10:30 UTC", "2015-03-14 10:30 UTC-8", "2015-03-14 10:30 +01:00", "2015-03-14 10:30 UTC+01:00",
+              "2015-03-14 10:30 +0100", "2015-03-14 10:30 GMT+0100", "2015-03-14 10:30 CST", "2015-03-14 10:30 GMT+0800 (CST)", "2015-03-14 10:30 EST", "2015-03-14 10:30"]:
+        P.append({"fn": "parse", "s": s, "kw": {"languages": ["en"]}}); zg.append(len(P) - 1)
+    pool.zones = zg
     # absolute-parser failures with the default settings object in non-MDY locales, and order-sensitive calls that must not notice
     poison = []
     for lg, bad in (("fr", "32/13/2020"), ("de", "45.45.2020"), ("hu", "2020.13.45")):
@@ -224,6 +231,9 @@ def run(ctx):
         cg = getattr(pool, "calendars", [])
         for _ in range(24 if tier == "quick" else 400):
             hists.append(([R.choice(cg) for _ in range(R.randint(2, 4))], "0"))
+        zg = getattr(pool, "zones", [])
+        for _ in range(40 if tier == "quick" else 600):
+            hists.append(([R.choice(zg) for _ in range(R.randint(2, 4))], "0"))
         tg = getattr(pool, "twins", [])
         for k_ in range(0, len(tg), 2):
             hists.append(([tg[k_], tg[k_ + 1]], "0")); hists.append(([tg[k_ + 1], tg[k_], tg[k_ + 1]], "0"))
